@@ -54,6 +54,26 @@ PSEUDO = {
     "IntString": IntString, "FloatString": FloatString, "BooleanString": BooleanString,
     "IsoDateString": IsoDateString, "IsoTimeString": IsoTimeString, "IsoDatetimeString": IsoDatetimeString,
 }
+
+
+def _chain_types():
+    """three user-defined pseudo-types whose replacement relation is a chain WITHOUT the transitive pair (Bin <- Oct <- Hex):
+    the shape the library's own registry test declares; a legal use of the public StringSerializableRegistry API"""
+    from json_to_models.dynamic_typing import StringSerializable
+
+    def make(name, digits):
+        def to_internal_value(cls, value):
+            if not value or any(ch not in digits for ch in value):
+                raise ValueError(value)
+            return cls(value)
+        return type(name, (StringSerializable, str), {"actual_type": str, "to_internal_value": classmethod(to_internal_value),
+                                                      "to_representation": lambda self: str(self)})
+    return {"BinString": make("BinString", "01"), "OctString": make("OctString", "01234567"), "HexString": make("HexString", "0123456789abcdef")}
+
+
+PSEUDO.update(_chain_types())
+CHAIN_TYPES = ("BinString", "OctString", "HexString")
+CHAIN_REPLACES = {"OctString": ("BinString",), "HexString": ("OctString",)}
 DEFAULT_TYPES = ("IntString", "FloatString", "BooleanString")
 DATETIME_TYPES = ("IsoDateString", "IsoTimeString", "IsoDatetimeString")
 ALL_TYPES = DEFAULT_TYPES + DATETIME_TYPES
@@ -79,6 +99,8 @@ def make_str_registry(names=DEFAULT_TYPES):
         cls = PSEUDO[n]
         if cls is FloatString:
             reg.add(replace_types=(IntString,), cls=cls)
+        elif n in CHAIN_REPLACES:
+            reg.add(replace_types=tuple(PSEUDO[x] for x in CHAIN_REPLACES[n]), cls=cls)
         else:
             reg.add(cls=cls)
     if tail_dt:
@@ -143,6 +165,22 @@ def build(samples, types=DEFAULT_TYPES, dkr=None, dkf=None, merge="default", roo
         b.merged = b.reg.merge_models(b.gen)
     if names:
         b.reg.generate_names()
+    return b
+
+
+def build_roots(roots, types=DEFAULT_TYPES, dkr=None, dkf=None, merge="default"):
+    """{root name: samples} -> one generator, one registry, every root registered under its name (what the CLI does for several -m)"""
+    b = Built()
+    b.strreg = make_str_registry(types)
+    b.gen = MetadataGenerator(str_types_registry=b.strreg, dict_keys_regex=dkr, dict_keys_fields=dkf)
+    b.reg = ModelRegistry(*make_cmps(MERGE_POLICIES[merge] if isinstance(merge, str) else merge))
+    b.root = None
+    for name, samples in roots.items():
+        ptr = b.reg.process_meta_data(b.gen.generate(*samples), model_name=name)
+        b.root = b.root or ptr
+    b.meta = None
+    b.merged = b.reg.merge_models(b.gen)
+    b.reg.generate_names()
     return b
 
 
